@@ -741,6 +741,9 @@ func runC08(p *an.Prog, r *an.Run, tier string) {
 	checkErrorReplies(p, r)
 	// the "not already its peer" filter reads the tracked peer set, which must survive re-registration (shared with C12)
 	checkSetNodeKeepsPeers(p, r)
+	// "is currently connected": the registry discipline of C09 (a close only unregisters its own connection, the maps
+	// are written together under the lock, ...) is what keeps a live host in the candidate set
+	runC09(p, r, tier)
 
 	// ---- test-bypass
 	bad = nil
